@@ -848,10 +848,40 @@ class Interp:
         else:
             self.exec_block(st.orelse, fr)
 
+    _loop_ord_cache: dict = {}
+
+    def loop_ordinal(self, fr, st):
+        """static ordinal of a loop statement inside its function (pre-order over the function's own body)"""
+        fn = fr.func.node if fr.func is not None else None
+        if fn is None:
+            fr.loop_n += 1
+            return fr.loop_n
+        key = id(fn)
+        m = self._loop_ord_cache.get(key)
+        if m is None:
+            m = {}
+            n = 0
+
+            def walk(body):
+                nonlocal n
+                for x in body:
+                    if isinstance(x, (ast.For, ast.AsyncFor, ast.While)):
+                        n += 1
+                        m[id(x)] = n
+                    for fld in ("body", "orelse", "finalbody"):
+                        sub = getattr(x, fld, None)
+                        if isinstance(sub, list) and not isinstance(x, (ast.FunctionDef, ast.AsyncFunctionDef, ast.ClassDef)):
+                            walk(sub)
+                    for h in getattr(x, "handlers", []) or []:
+                        walk(h.body)
+
+            walk(fn.body if not isinstance(fn, ast.Lambda) else [])
+            self._loop_ord_cache[key] = m
+        return m.get(id(st), 0)
+
     def s_For(self, st, fr):
         it = self.eval(st.iter, fr)
-        fr.loop_n += 1
-        ordinal = fr.loop_n
+        ordinal = self.loop_ordinal(fr, st)
         ls = self.loop_specs.get((fr.qual, ordinal))
         if ls is not None:
             return ls.run_for(self, st, fr, it)
@@ -873,8 +903,7 @@ class Interp:
     s_AsyncFor = s_For
 
     def s_While(self, st, fr):
-        fr.loop_n += 1
-        ordinal = fr.loop_n
+        ordinal = self.loop_ordinal(fr, st)
         ls = self.loop_specs.get((fr.qual, ordinal))
         if ls is not None:
             return ls.run_while(self, st, fr)
